@@ -367,6 +367,11 @@ def client_case(rng, stats, length, pid):
         return rng.choice([1, 2, 77])
 
     depth = rng.choice([0, 1, 2, 3, 4, 5, 5, 5, 5, 5])
+    if rng.chance(1, 3):
+        # the peer announces a small acknowledgement window right away: acknowledgements then interleave with
+        # everything the client sends on the protocol-control chunk stream
+        feed(ps.msg(5, 0, rng.choice([30, 50, 100, 200, 1000]).to_bytes(4, "big")))
+        bump(stats, "cli_small_window_first")
     if depth >= 1:
         ops.append(f"cli.connect {rand_now(rng, st)} {hexb(rng.choice([b'live', b'app/', b'a']))}")
         sim.txns[sim.next_tid] = "conn"; sim.next_tid += 1
